@@ -18,6 +18,8 @@ for d in sorted(glob.glob(os.path.join(VERIF, 'seeded', 'C*'))):
                 cs.append('%s (%s)' % (pid, 'tie' if r[pid]['no_failing_input_found'] else 'input'))
         errs = [pid for pid in sorted(r) if r[pid]['exit'] not in (0, 1)]
         caught = ', '.join(cs) or '**missed**'
+        if len(r) < 20:
+            caught += ' — only ' + ', '.join(sorted(r)) + ' run'
         if errs:
             caught += '; harness error in ' + ', '.join(errs)
         if m['breaks_property'] not in [c.split(' ')[0] for c in cs]:
